@@ -84,7 +84,7 @@ UNITS["C15"] = [
     dict(kind="structural", name="c15_atomic", check="schema_atomic", file="crates/klukai-agent/src/api/public/mod.rs", fn="execute_schema",
          trusted=["rusqlite: a Transaction dropped without commit() rolls back; SQLite DDL is transactional"]),
     dict(kind="verus", name="c15_schema", template="specs/c15_schema.vrs",
-         under_contract=["frag_tables", "frag_columns", "frag_add_column", "frag_indexes"], vacuity=["frag_tables", "frag_columns", "frag_add_column", "frag_indexes"], replay="c15_schema",
+         under_contract=["frag_tables", "frag_columns", "frag_add_column", "frag_indexes", "frag_changed_index"], vacuity=["frag_tables", "frag_columns", "frag_add_column", "frag_indexes", "frag_changed_index"], replay="c15_schema",
          trusted=["key_difference = the idiom `A.keys().collect::<HashSet<_>>().difference(&B.keys().collect::<HashSet<_>>())`; filter_map_collect = `.iter().filter_map(f).collect::<HashMap<_,_>>()` with the real closure; derived PartialEq on Column is field-wise equality"],
          assumptions=["fragments of apply_schema wrapped as functions (return Err(..) kept, fall-through = Ok(())); names are a stand-in text type compared by identity; SQL AST payloads opaque"]),
 ]
@@ -93,7 +93,7 @@ UNITS["C12"] = [
     dict(kind="structural", name="c12_lag_stops", check="sub_lag_stops", file="crates/klukai-agent/src/api/public/pubsub.rs", fn="forward_sub_to_sender",
          trusted=["tokio broadcast: a receiver that fell behind gets RecvError::Lagged before any later event; mpsc try_send fails iff the buffer is full or closed"]),
     dict(kind="verus", name="c12_server", template="specs/c12_server.vrs",
-         under_contract=["frag_catch_up_retries", "frag_hand_over", "lemma_append_run"], vacuity=["frag_catch_up_retries", "frag_hand_over"],
+         under_contract=["frag_catch_up_retries", "frag_hand_over", "frag_since_init", "frag_since_step", "lemma_append_run"], vacuity=["frag_catch_up_retries", "frag_hand_over", "frag_since_init", "frag_since_step"],
          trusted=["catch_up_sub_from / Matcher::changes_since: forwards every retained change with id > from in ascending order and returns the largest id read (SQL `WHERE id > ? ORDER BY id ASC`); the retained change log has no gap above the resume point",
                   "EvtTx::send / send_error: the mpsc sender towards the HTTP body, viewed as the sequence of change ids written"],
          assumptions=["fragments of the async fn catch_up_sub wrapped as functions: `.await` dropped on the stand-in calls, tracing macros and the 100 ms sleep dropped, `return;` -> return Exit::Return with the locals",
